@@ -11,6 +11,9 @@
 //!   moved    w.r.t. the base value of the type, exactly the hashes the spec says move do move
 //!   json     packed -> jsonrpc type -> JSON text -> jsonrpc type -> packed is the identity, and the JSON text is a
 //!            fixed point (JSON -> packed -> JSON)
+//!   builder  the mutated value's view obtained FROM THE BASE VALUE'S VIEW through as_advanced_builder() + the setter(s) of the
+//!            differing field(s) (set / extend / push forms; field list from the schema) + build()/build_unchecked() carries no
+//!            stale cached hash (tx hash, witness hash, block hash, tx/uncle hash vectors, roots)
 //!   view     into_view / view getters / JSON views agree with the packed data (on self-consistent blocks for the
 //!            conversions that normalise the header)
 #[path = "../molgen.rs"]
@@ -392,6 +395,277 @@ fn json_checks(ty: &str, bytes: &[u8]) -> Result<bool, String> {
     Ok(true)
 }
 
+
+// ---------------------------------------------------------------------------------------------- view -> builder -> view
+// The mutated value's view is obtained from the BASE value's view through as_advanced_builder() + the setter(s) of the
+// field(s) that differ + build(); every cached hash of the result must equal recomputation from data().  The field
+// lists come from the schema (molgen::field_names): a field the advanced builder has no setter for is reported.
+
+fn same_bytes(a: &[u8], b: &[u8]) -> bool {
+    a == b
+}
+
+/// every way the advanced builder offers to give a vector field its new content
+#[derive(Clone, Copy, Debug, PartialEq)]
+enum VecForm {
+    Set,
+    Extend,
+    Push,
+}
+const FORMS: [VecForm; 3] = [VecForm::Set, VecForm::Extend, VecForm::Push];
+
+macro_rules! vec_field {
+    ($b:expr, $form:expr, $items:expr, $set:ident, $extend:ident, $push:ident) => {{
+        let items: Vec<_> = $items;
+        match $form {
+            VecForm::Set => $b.$set(items),
+            VecForm::Extend => $b.$set(vec![]).$extend(items),
+            VecForm::Push => {
+                let mut b = $b.$set(vec![]);
+                for x in items {
+                    b = b.$push(x);
+                }
+                b
+            }
+        }
+    }};
+}
+
+fn check_tx_view(what: &str, v: &core::TransactionView, want: &packed::Transaction) -> R {
+    if !same_bytes(v.data().as_slice(), want.as_slice()) {
+        return Err(format!("{what}: the built transaction is not the mutated value"));
+    }
+    if v.hash() != v.data().calc_tx_hash() {
+        return Err(format!("{what}: TransactionView.hash() is stale (differs from data().calc_tx_hash())"));
+    }
+    if v.witness_hash() != v.data().calc_witness_hash() {
+        return Err(format!("{what}: TransactionView.witness_hash() is stale"));
+    }
+    Ok(())
+}
+
+/// base view -> builder -> setters of the differing fields -> view, in every vector form
+fn tx_via_builder(base: &core::TransactionView, want: &packed::Transaction) -> Result<core::TransactionView, String> {
+    let (b, w) = (base.data(), want.clone());
+    let mut last = None;
+    for form in FORMS {
+        let mut bld = base.as_advanced_builder();
+        let mut touched = 0;
+        for f in molgen::field_names("RawTransaction").unwrap().iter().chain(molgen::field_names("Transaction").unwrap().iter()) {
+            match *f {
+                "raw" => {}
+                "version" => if b.raw().version().as_slice() != w.raw().version().as_slice() { bld = bld.version(w.raw().version()); touched += 1 },
+                "cell_deps" => if b.raw().cell_deps().as_slice() != w.raw().cell_deps().as_slice() { bld = vec_field!(bld, form, w.raw().cell_deps().into_iter().collect(), set_cell_deps, cell_deps, cell_dep); touched += 1 },
+                "header_deps" => if b.raw().header_deps().as_slice() != w.raw().header_deps().as_slice() { bld = vec_field!(bld, form, w.raw().header_deps().into_iter().collect(), set_header_deps, header_deps, header_dep); touched += 1 },
+                "inputs" => if b.raw().inputs().as_slice() != w.raw().inputs().as_slice() { bld = vec_field!(bld, form, w.raw().inputs().into_iter().collect(), set_inputs, inputs, input); touched += 1 },
+                "outputs" => if b.raw().outputs().as_slice() != w.raw().outputs().as_slice() { bld = vec_field!(bld, form, w.raw().outputs().into_iter().collect(), set_outputs, outputs, output); touched += 1 },
+                "outputs_data" => if b.raw().outputs_data().as_slice() != w.raw().outputs_data().as_slice() { bld = vec_field!(bld, form, w.raw().outputs_data().into_iter().collect(), set_outputs_data, outputs_data, output_data); touched += 1 },
+                "witnesses" => if b.witnesses().as_slice() != w.witnesses().as_slice() { bld = vec_field!(bld, form, w.witnesses().into_iter().collect(), set_witnesses, witnesses, witness); touched += 1 },
+                other => return Err(format!("TransactionBuilder: no setter known for schema field `{other}`")),
+            }
+        }
+        let v = bld.build();
+        check_tx_view(&format!("as_advanced_builder + {touched} setter(s) ({form:?})"), &v, want)?;
+        last = Some(v);
+    }
+    Ok(last.unwrap())
+}
+
+fn header_via_builder(base: &core::HeaderView, want: &packed::Header) -> Result<core::HeaderView, String> {
+    let (b, w) = (base.data(), want.clone());
+    let mut bld = base.as_advanced_builder();
+    for f in molgen::field_names("RawHeader").unwrap().iter().chain(molgen::field_names("Header").unwrap().iter()) {
+        macro_rules! raw_field {
+            ($name:ident) => {
+                if b.raw().$name().as_slice() != w.raw().$name().as_slice() {
+                    bld = bld.$name(w.raw().$name());
+                }
+            };
+        }
+        match *f {
+            "raw" => {}
+            "version" => raw_field!(version),
+            "compact_target" => raw_field!(compact_target),
+            "timestamp" => raw_field!(timestamp),
+            "number" => raw_field!(number),
+            "epoch" => raw_field!(epoch),
+            "parent_hash" => raw_field!(parent_hash),
+            "transactions_root" => raw_field!(transactions_root),
+            "proposals_hash" => raw_field!(proposals_hash),
+            "extra_hash" => raw_field!(extra_hash),
+            "dao" => raw_field!(dao),
+            "nonce" => if b.nonce().as_slice() != w.nonce().as_slice() { bld = bld.nonce(w.nonce()) },
+            other => return Err(format!("HeaderBuilder: no setter known for schema field `{other}`")),
+        }
+    }
+    let v = bld.build();
+    if !same_bytes(v.data().as_slice(), want.as_slice()) {
+        return Err("HeaderBuilder: the built header is not the mutated value".into());
+    }
+    if v.hash() != v.data().calc_header_hash() {
+        return Err("HeaderView.hash() is stale after as_advanced_builder + setter + build".into());
+    }
+    Ok(v)
+}
+
+fn check_block_view(what: &str, v: &core::BlockView, want: &packed::Block) -> R {
+    if !same_bytes(v.data().as_slice(), want.as_slice()) {
+        return Err(format!("{what}: the built block is not the expected value"));
+    }
+    let fresh = want.clone().into_view_without_reset_header();
+    if v.hash() != fresh.hash() || v.hash() != v.data().calc_header_hash() {
+        return Err(format!("{what}: BlockView.hash() is stale"));
+    }
+    if v.tx_hashes() != fresh.tx_hashes() || v.tx_hashes() != &v.data().calc_tx_hashes()[..] {
+        return Err(format!("{what}: BlockView.tx_hashes() is stale"));
+    }
+    if v.tx_witness_hashes() != fresh.tx_witness_hashes() {
+        return Err(format!("{what}: BlockView.tx_witness_hashes() is stale"));
+    }
+    if v.uncle_hashes().as_slice() != fresh.uncle_hashes().as_slice() {
+        return Err(format!("{what}: BlockView.uncle_hashes() is stale"));
+    }
+    if v.calc_transactions_root() != fresh.calc_transactions_root() || v.calc_extra_hash().extra_hash() != fresh.calc_extra_hash().extra_hash()
+        || v.calc_proposals_hash() != fresh.calc_proposals_hash() || v.calc_uncles_hash() != fresh.calc_uncles_hash() {
+        return Err(format!("{what}: roots computed from the view's caches differ from recomputation"));
+    }
+    for (i, t) in v.transactions().iter().enumerate() {
+        if t.hash() != t.data().calc_tx_hash() || t.witness_hash() != t.data().calc_witness_hash() {
+            return Err(format!("{what}: transaction {i} of the view carries a stale hash"));
+        }
+    }
+    for (i, u) in v.uncles().into_iter().enumerate() {
+        if u.hash() != u.data().calc_header_hash() {
+            return Err(format!("{what}: uncle {i} of the view carries a stale hash"));
+        }
+    }
+    Ok(())
+}
+
+fn block_via_builder(base: &packed::Block, want: &packed::Block) -> R {
+    let bv = base.clone().into_view_without_reset_header();
+    let base_txs = bv.transactions();
+    for form in FORMS {
+        let mut bld = bv.as_advanced_builder();
+        for f in molgen::field_names("BlockV1").unwrap() {
+            match *f {
+                "header" => {
+                    let (bh, wh) = (base.header(), want.header());
+                    for hf in molgen::field_names("RawHeader").unwrap().iter().chain(molgen::field_names("Header").unwrap().iter()) {
+                        macro_rules! raw_field {
+                            ($name:ident) => {
+                                if bh.raw().$name().as_slice() != wh.raw().$name().as_slice() {
+                                    bld = bld.$name(wh.raw().$name());
+                                }
+                            };
+                        }
+                        match *hf {
+                            "raw" => {}
+                            "version" => raw_field!(version),
+                            "compact_target" => raw_field!(compact_target),
+                            "timestamp" => raw_field!(timestamp),
+                            "number" => raw_field!(number),
+                            "epoch" => raw_field!(epoch),
+                            "parent_hash" => raw_field!(parent_hash),
+                            "transactions_root" => raw_field!(transactions_root),
+                            "proposals_hash" => raw_field!(proposals_hash),
+                            "extra_hash" => raw_field!(extra_hash),
+                            "dao" => raw_field!(dao),
+                            "nonce" => if bh.nonce().as_slice() != wh.nonce().as_slice() { bld = bld.nonce(wh.nonce()) },
+                            other => return Err(format!("BlockBuilder: no setter known for header field `{other}`")),
+                        }
+                    }
+                }
+                "uncles" => if base.uncles().as_slice() != want.uncles().as_slice() {
+                    // an uncle view is what BlockView::as_uncle() yields for a block with that header and those proposals
+                    let mut us = vec![];
+                    for u in want.uncles().into_iter() {
+                        let hv = header_via_builder(&base.header().into_view(), &u.header())?;
+                        let uv = core::BlockBuilder::default().header(hv).set_proposals(u.proposals().into_iter().collect()).build_unchecked().as_uncle();
+                        if !same_bytes(uv.data().as_slice(), u.as_slice()) || uv.hash() != u.calc_header_hash() {
+                            return Err("as_uncle(): uncle view differs from the packed uncle / stale hash".into());
+                        }
+                        us.push(uv);
+                    }
+                    bld = vec_field!(bld, form, us, set_uncles, uncles, uncle);
+                },
+                "transactions" => if base.transactions().as_slice() != want.transactions().as_slice() {
+                    let mut ts = vec![];
+                    for (i, t) in want.transactions().into_iter().enumerate() {
+                        // each transaction view is derived from the base block's view of that position where there is one
+                        let tv = match base_txs.get(i) {
+                            Some(bt) => tx_via_builder(bt, &t)?,
+                            None => t.into_view(),
+                        };
+                        ts.push(tv);
+                    }
+                    bld = vec_field!(bld, form, ts, set_transactions, transactions, transaction);
+                },
+                "proposals" => if base.proposals().as_slice() != want.proposals().as_slice() {
+                    bld = vec_field!(bld, form, want.proposals().into_iter().collect(), set_proposals, proposals, proposal);
+                },
+                "extension" => if base.extension().map(|e| e.as_slice().to_vec()) != want.extension().map(|e| e.as_slice().to_vec()) {
+                    bld = bld.extension(want.extension());
+                },
+                other => return Err(format!("BlockBuilder: no setter known for schema field `{other}`")),
+            }
+        }
+        let unchecked = bld.clone().build_unchecked();
+        check_block_view(&format!("as_advanced_builder + setters + build_unchecked ({form:?})"), &unchecked, want)?;
+        let checked = bld.build();
+        check_block_view(&format!("as_advanced_builder + setters + build ({form:?})"), &checked, &want.clone().reset_header())?;
+    }
+    Ok(())
+}
+
+/// HeaderBuilder::build() debug-asserts compact_target > 0 and a well-formed epoch (except for number 0): such headers are
+/// outside the builder's domain (a documented precondition, not a hash-cache question)
+fn header_buildable(h: &packed::Header) -> bool {
+    let raw = h.raw();
+    let ct: u32 = raw.compact_target().into();
+    let number: u64 = raw.number().into();
+    let epoch: core::EpochNumberWithFraction = raw.epoch().into();
+    ct > 0 && (number == 0 || epoch.is_well_formed())
+}
+fn block_buildable(b: &packed::Block) -> bool {
+    header_buildable(&b.header()) && b.uncles().into_iter().all(|u| header_buildable(&u.header()))
+}
+
+/// Ok(Some(true)): checked; Ok(Some(false)): a header outside HeaderBuilder's domain; Ok(None): the type has no advanced builder
+fn builder_checks(ty: &str, base: &[u8], var: &[u8]) -> Result<Option<bool>, String> {
+    let ok = match ty {
+        "Header" => header_buildable(&packed::Header::from_slice(var).unwrap()),
+        "UncleBlock" => header_buildable(&packed::UncleBlock::from_slice(var).unwrap().header()),
+        "Block" | "BlockV1" => block_buildable(&block_of(ty, var)) && block_buildable(&block_of(ty, base)),
+        _ => true,
+    };
+    if !ok {
+        return Ok(Some(false));
+    }
+    match ty {
+        "Transaction" => {
+            let b = packed::Transaction::from_slice(base).unwrap().into_view();
+            tx_via_builder(&b, &packed::Transaction::from_slice(var).unwrap())?;
+        }
+        "Header" => {
+            let b = packed::Header::from_slice(base).unwrap().into_view();
+            header_via_builder(&b, &packed::Header::from_slice(var).unwrap())?;
+        }
+        "UncleBlock" => {
+            let b = packed::UncleBlock::from_slice(base).unwrap();
+            let w = packed::UncleBlock::from_slice(var).unwrap();
+            let hv = header_via_builder(&b.header().into_view(), &w.header())?;
+            let uv = core::BlockBuilder::default().header(hv).set_proposals(w.proposals().into_iter().collect()).build_unchecked().as_uncle();
+            if !same_bytes(uv.data().as_slice(), w.as_slice()) || uv.hash() != w.calc_header_hash() || uv.header().hash() != w.header().calc_header_hash() {
+                return Err("UncleBlockView from BlockBuilder + as_uncle(): data or cached hash differ".into());
+            }
+        }
+        "Block" | "BlockV1" => block_via_builder(&block_of(ty, base), &block_of(ty, var))?,
+        _ => return Ok(None),
+    }
+    Ok(Some(true))
+}
+
 fn hex(b: &[u8]) -> String {
     b.iter().map(|x| format!("{:02x}", x)).collect()
 }
@@ -414,10 +688,12 @@ struct Tally {
     moved_pairs: u64,
     moved_nonempty: u64,
     older: u64,
+    builder_paths: u64,
+    builder_skipped_header_precondition: u64,
     mismatches: u64,
 }
 
-fn one(rec: &Value, base: &mut HashMap<String, Vec<(String, Vec<u8>)>>, t: &mut Tally, report: &mut dyn FnMut(&str, String)) {
+fn one(rec: &Value, base: &mut HashMap<String, Vec<(String, Vec<u8>)>>, base_enc: &mut HashMap<String, Vec<u8>>, t: &mut Tally, report: &mut dyn FnMut(&str, String)) {
     let ty = rec["ty"].as_str().expect("ty").to_string();
     let k = rec["k"].as_u64().expect("k");
     let v = &rec["v"];
@@ -507,6 +783,18 @@ fn one(rec: &Value, base: &mut HashMap<String, Vec<(String, Vec<u8>)>>, t: &mut 
             }
         }
     }
+    // view -> advanced builder -> setter(s) -> view, from the base value of the type
+    if k == 1 {
+        base_enc.insert(ty.clone(), enc.clone());
+    }
+    if let Some(b) = base_enc.get(&ty) {
+        match guarded(|| builder_checks(&ty, b, &enc)) {
+            Ok(Some(true)) => t.builder_paths += 1,
+            Ok(Some(false)) => t.builder_skipped_header_precondition += 1,
+            Ok(None) => {}
+            Err(e) => report("builder", e),
+        }
+    }
     // json + views
     match guarded(|| json_checks(&ty, &enc)) {
         Ok(true) => t.json_checked += 1,
@@ -523,7 +811,8 @@ fn values(args: &[String]) {
     let input = opt(args, "--in").expect("--in");
     let text = std::fs::read_to_string(input).expect("read input");
     let mut base = HashMap::new();
-    let mut t = Tally { records: 0, json_checked: 0, json_skipped_invalid_enum: 0, hash_terms: 0, moved_pairs: 0, moved_nonempty: 0, older: 0, mismatches: 0 };
+    let mut base_enc = HashMap::new();
+    let mut t = Tally { records: 0, json_checked: 0, json_skipped_invalid_enum: 0, hash_terms: 0, moved_pairs: 0, moved_nonempty: 0, older: 0, builder_paths: 0, builder_skipped_header_precondition: 0, mismatches: 0 };
     let out = std::io::stdout();
     std::panic::set_hook(Box::new(|_| {}));
     for line in text.lines() {
@@ -535,7 +824,7 @@ fn values(args: &[String]) {
         let mut found: Vec<(String, String)> = vec![];
         {
             let mut report = |kind: &str, detail: String| found.push((kind.to_string(), detail));
-            one(&rec, &mut base, &mut t, &mut report);
+            one(&rec, &mut base, &mut base_enc, &mut t, &mut report);
         }
         for (kind, detail) in found {
             t.mismatches += 1;
@@ -546,7 +835,7 @@ fn values(args: &[String]) {
     println!(
         "{}",
         json!({"summary": {"records": t.records, "json_checked": t.json_checked, "json_skipped_invalid_enum": t.json_skipped_invalid_enum,
-            "hash_terms": t.hash_terms, "moved_pairs": t.moved_pairs, "moved_nonempty": t.moved_nonempty, "older": t.older, "mismatches": t.mismatches}})
+            "hash_terms": t.hash_terms, "moved_pairs": t.moved_pairs, "moved_nonempty": t.moved_nonempty, "older": t.older, "builder_paths": t.builder_paths, "builder_skipped_header_precondition": t.builder_skipped_header_precondition, "mismatches": t.mismatches}})
     );
 }
 
